@@ -283,10 +283,17 @@ def run(chk):
         ed = np.r_[p.bins.lower, p.bins.upper[-1]]
         if ed[0] != brk[0] or ed[-1] != brk[-1] or not all(np.any(ed == b) for b in brk) or len(p.N) != sum(nb_):
             chk.fail("from_BHMF: bins have the requested edges", label, ed.tolist())
-        pk = emf.InitialBHPopulation.from_BHMF(brk, sl, nb_, -1.0, N0=N0, natal_kicks=True, vesc=rng.choice([30, 90, 300]))
-        if np.any(pk.M > p.M * (1 + 1e-12)) or abs((p.M.sum() - pk.M.sum()) - pk._kicked_M) > 1e-9 * max(p.M.sum(), 1e-300):
-            chk.fail("kicks only remove BHs, by exactly the reported kicked mass", label,
-                     dict(removed=float(p.M.sum() - pk.M.sum()), reported=float(pk._kicked_M)))
+        for kset in (dict(vesc=rng.choice([30, 90, 300])), dict(kick_method="sigmoid", kick_slope=rng.choice([0.4, 1.0]), kick_scale=rng.choice([10.0, 20.0])),
+                     dict(kick_method=rng.choice(["f12", "fryer2012"]), vesc=rng.choice([60, 150]))):
+            try:
+                pk = emf.InitialBHPopulation.from_BHMF(brk, sl, nb_, -1.0, N0=N0, natal_kicks=True, **kset)
+            except Exception as e:  # noqa
+                chk.fail("kicks only remove BHs, by exactly the reported kicked mass", dict(label, kicks=kset), dict(error=type(e).__name__, msg=str(e)[:80]))
+                continue
+            chk.count("from_BHMF with kicks (%s)" % kset.get("kick_method", "maxwellian"))
+            if np.any(pk.M > p.M * (1 + 1e-12)) or np.any(pk.N > p.N * (1 + 1e-12)) or abs((p.M.sum() - pk.M.sum()) - pk._kicked_M) > 1e-9 * max(p.M.sum(), 1e-300):
+                chk.fail("kicks only remove BHs, by exactly the reported kicked mass", dict(label, kicks=kset),
+                         dict(removed=float(p.M.sum() - pk.M.sum()), reported=float(pk._kicked_M)))
     chk.trusted += ["harness/props/C19.py (closure capture through a stand-in for scipy's ode)", "FloatFun", "translator gen_formulas.py"]
 
 
